@@ -262,7 +262,7 @@ def run(tier, replay=None):
                 ck.nontrivial.add(json.dumps([j['ops'], j['schedule']], sort_keys=True))
         # ---- E. real subprocess scenarios -----------------------------------
         real = []
-        for name in ['close-reuse', 'disconnect', 'client-death', 'launch-failure', 'concurrent', 'concurrent-noprep']:
+        for name in ['close-reuse', 'disconnect', 'client-death', 'launch-failure', 'slow-launch', 'concurrent', 'concurrent-noprep']:
             real.append((name, run_real(name)))
         base = len(cases)
         for i, (name, r) in enumerate(real):
@@ -318,7 +318,7 @@ def run(tier, replay=None):
         ck.drift = drift_steps
         ck.rule = ('schedules = TLC behaviours of Startup.tla (edge cover of the dumped graphs of 2-thread instances, '
                    '-simulate behaviours of the 3-thread instance with one injected launch failure) + random bursty schedules '
-                   'on 2-3 threads + 6 real-subprocess scenarios; non-trivial = at least 2 context switches among the executed steps; '
+                   'on 2-3 threads + 7 real-subprocess scenarios; non-trivial = at least 2 context switches among the executed steps; '
                    'distinct by (op sequences, schedule)')
         ck.exhaustive = False
         ck.extra.update({'model_graph_edges': edges, 'model_graph_edges_replayed': covered,
